@@ -421,6 +421,21 @@ Proof.
       injection Hst as <-; cbn in Hl; repeat (destruct Hl as [<-|Hl]; [cbn; lia|]); destruct Hl.
   - repeat split; vm_compute; reflexivity.
 Qed.
+(* C11_wasm_history on a non-trivial history over the real table: SpellCheck off + an unknown key on, then
+   SpellCheck null, then an object that does not mention it: on again (default), the stored configuration still
+   lists it (null) and the unknown key (null); an explicit off in the last object is obeyed *)
+Example C11_wasm_nonvacuous :
+  let u1 := [(k_SpellCheck, Some false); (ex_key [90], Some true)] in
+  let u2 := [(k_SpellCheck, None)] in
+  let u3 := [(ex_key [90], Some false)] in
+  wf u1 /\ wf u2 /\ wf u3 /\
+  is_rule_enabled (fill_with_curated curated_cfg (wasm_seq (clear curated_cfg) [u1])) k_SpellCheck = false /\
+  is_rule_enabled (fill_with_curated curated_cfg (wasm_seq (clear curated_cfg) [u1; u2])) k_SpellCheck = true /\
+  is_rule_enabled (fill_with_curated curated_cfg (wasm_seq (clear curated_cfg) [u1; u2; u3])) k_SpellCheck = true /\
+  get k_SpellCheck (wasm_seq (clear curated_cfg) [u1; u2; u3]) = Some None /\
+  get (ex_key [90]) (wasm_seq (clear curated_cfg) [u1; u2]) = Some None /\
+  is_rule_enabled (fill_with_curated curated_cfg (wasm_seq (clear curated_cfg) [u2; u3; u1])) k_SpellCheck = false.
+Proof. cbv zeta. repeat split; vm_compute; reflexivity. Qed.
 (* the premise of C11_rebase_panics is satisfiable: the same group with C switched on and C's second-chunk
    lint moved before the chunk start *)
 Example C11_panic_nonvacuous :
